@@ -187,12 +187,41 @@ def h3_predictors(timeout=200, part=None, **kw):
 
     def fn(ex):
         which = ex.choice(2, "which")
-        colors = ex.choice(4, "colors")              # 0..3
-        columns = ex.choice(4, "columns")            # 0..3
+        GEOM = [0, 1, 2, 3, -1, -8, 10 ** 9]             # incl. negative values and one far beyond any data (work must stay bounded by the data)
+        colors = GEOM[ex.choice(5, "colors")]
+        columns = GEOM[ex.choice(len(GEOM), "columns")]
         bpc = [8, 1, 0, 4, 16][ex.choice(5, "bpc")]
         n = ex.choice(5, "len")
         data = sbytes.sym_bytes(ex, "d", n, 0, 5) if which == 0 else sbytes.sym_bytes(ex, "d", n)
         info = {"which": which, "colors": colors, "columns": columns, "bpc": bpc, "data": data}
+        import signal
+        name = ["PNG", "TIFF"][which]
+
+        def onalarm(*a):
+            raise Hang()
+        # work bound: a concrete run on zero bytes of the same length under an alarm (the symbolic run below spends its time in the solver, so it cannot be timed)
+        import resource
+        old = signal.signal(signal.SIGALRM, onalarm)
+        signal.alarm(5)
+        soft, hard = resource.getrlimit(resource.RLIMIT_AS)
+        with open("/proc/self/statm") as f:
+            cur = int(f.read().split()[0]) * resource.getpagesize()
+        resource.setrlimit(resource.RLIMIT_AS, (cur + (1 << 30), hard))          # at most 1 GiB more address space for a few bytes of data
+        try:
+            if which == 0:
+                u.apply_png_predictor(12, colors, columns, bpc, bytes(n))
+            else:
+                u.apply_tiff_predictor(colors, columns, bpc, bytes(n))
+        except Hang:
+            ex.require(False, "%s predictor (colors=%d, columns=%d, bits=%d) on %d bytes did not return within 5 s" % (name, colors, columns, bpc, n), **info)
+        except MemoryError:
+            ex.require(False, "%s predictor (colors=%d, columns=%d, bits=%d) on %d bytes ran out of memory" % (name, colors, columns, bpc, n), **info)
+        except Exception:
+            pass
+        finally:
+            resource.setrlimit(resource.RLIMIT_AS, (soft, hard))
+            signal.alarm(0)
+            signal.signal(signal.SIGALRM, old)
         try:
             if which == 0:
                 u.apply_png_predictor(12, colors, columns, bpc, SByI(data.els))
@@ -201,12 +230,12 @@ def h3_predictors(timeout=200, part=None, **kw):
         except symx.Violation:
             raise
         except Exception as e:
-            ex.require(ok_exc(e), "%s predictor (colors=%d, columns=%d, bits=%d) raised %s: %s" % (["PNG", "TIFF"][which], colors, columns, bpc, type(e).__name__, e), **info)
+            ex.require(ok_exc(e), "%s predictor (colors=%d, columns=%d, bits=%d) raised %s: %s" % (name, colors, columns, bpc, type(e).__name__, e), **info)
 
     def conc(m, info):
         return {"what": "pred", "which": info["which"], "colors": info["colors"], "columns": info["columns"], "bpc": info["bpc"], "data": sbytes.model_bytes(m, info["data"])}
     return core.run_symx("H3_decoders", fn, [u.apply_png_predictor, u.apply_tiff_predictor],
-                         {"decoder": "PNG / TIFF predictor", "colors": "0..3", "columns": "0..3", "bits": [8, 1, 0, 4, 16], "data": "0..4 symbolic bytes"}, timeout, concretize=conc, part=part,
+                         {"decoder": "PNG / TIFF predictor", "colors": "0..3, -1", "columns": "0..3, -1, -8, 10^9", "bits": [8, 1, 0, 4, 16], "data": "0..4 symbolic bytes", "work": "a concrete pre-run under a 5 s alarm and a 1 GiB address-space allowance"}, timeout, concretize=conc, part=part,
                          int_lo=-1, int_hi=40)
 
 
@@ -350,8 +379,13 @@ def run_extract(data, seconds=5, entry="text"):
 
     def onalarm(*a):
         raise Hang()
+    import resource
     old = signal.signal(signal.SIGALRM, onalarm)
     signal.alarm(seconds)
+    soft, hard = resource.getrlimit(resource.RLIMIT_AS)
+    with open("/proc/self/statm") as f:
+        cur = int(f.read().split()[0]) * resource.getpagesize()
+    resource.setrlimit(resource.RLIMIT_AS, (cur + (2 << 30), hard))          # work bounded in proportion to the input: at most 2 GiB more address space for these few-KB documents
     try:
         if entry == "text":
             extract_text(io.BytesIO(data))
@@ -365,9 +399,12 @@ def run_extract(data, seconds=5, entry="text"):
         return "%s did not return within %d s" % (name, seconds)
     except RecursionError:
         return "%s exhausted the recursion limit" % name
+    except MemoryError:
+        return "%s needed more than 2 GiB of memory for a document of %d bytes" % (name, len(data))
     except Exception as e:
         return None if ok_exc(e) else "%s raised %s: %s" % (name, type(e).__name__, str(e)[:200])
     finally:
+        resource.setrlimit(resource.RLIMIT_AS, (soft, hard))
         signal.alarm(0)
         signal.signal(signal.SIGALRM, old)
 
@@ -901,8 +938,8 @@ def jobs(tier):
         J.append(Job("H1_accessors:%d" % k, "h1_accessors", {"part": [k, 4, 8]}, 300, "H1_accessors"))
     for k in range(8):
         J.append(Job("H3_rl:%d" % k, "h3_rl", {"n": 3 if tier == "quick" else 4, "part": [k, 8, 10]}, 300 if tier == "quick" else 1800, "H3_decoders"))
-    for k in range(4):
-        J.append(Job("H3_predictors:%d" % k, "h3_predictors", {"part": [k, 4, 8]}, 300, "H3_decoders"))
+    for k in range(12):
+        J.append(Job("H3_predictors:%d" % k, "h3_predictors", {"part": [k, 12, 11]}, 300, "H3_decoders"))
     J.append(Job("H3_ascii", "h3_ascii", {}, 300, "H3_decoders"))
     for k in range(2):
         J.append(Job("H4_faults:seed1:%d" % k, "h4_faults", {"depth": 3, "part": [k, 2, 6]}, 300, "H4_faults"))
